@@ -18,16 +18,27 @@ def anchor(x):
 
 
 def insertion(name, anc, pos=(), neg=(), id=0, fn="subtotal", hide=False, style=None,
-              noanchor=False, noname=False):
+              noanchor=False, noname=False, lrank=0):
     return {"fn": fn, "name": name, "anchor": anchor(anc), "pos": list(pos),
             "neg": list(neg), "style": style or ("kwargs" if neg else "args"),
-            "id": id, "hide": hide, "noanchor": noanchor, "noname": noname}
+            "id": id, "hide": hide, "noanchor": noanchor, "noname": noname, "lrank": lrank}
+
+
+ORDER_DEFAULTS = {"type": "payload", "ids": [], "measure": "", "marginal": "", "eid": 0,
+                  "iid": 0, "dir": "descending", "top": [], "bottom": []}
+
+
+def order(**kw):
+    o = dict(ORDER_DEFAULTS)
+    o.update(kw)
+    return o
 
 
 def dimcfg(vins=(), xins=None, hide=(), prune=False, order=None):
+    o = dict(ORDER_DEFAULTS)
+    o.update(order or {})
     return {"vins": list(vins), "hasx": xins is not None, "xins": list(xins or ()),
-            "hide": sorted(hide), "prune": prune,
-            "order": order or {"type": "payload", "ids": []}}
+            "hide": sorted(hide), "prune": prune, "order": o}
 
 
 def config(rows=None, cols=None):
@@ -43,9 +54,9 @@ def _tla_ins(i):
 
 
 def _tla_order(o):
-    o = dict(o)
-    o.setdefault("ids", [])
-    return tla_value(o)
+    full = dict(ORDER_DEFAULTS)
+    full.update(o)
+    return tla_value(full)
 
 
 def _tla_dimcfg(dc):
@@ -90,9 +101,17 @@ def order_dict(o):
     d = {"type": t}
     if t == "explicit":
         d["element_ids"] = list(o["ids"])
-    for k in ("direction", "measure", "marginal", "element_id", "insertion_id"):
-        if k in o and o[k] is not None:
-            d[k] = o[k]
+    else:
+        if o.get("measure"):
+            d["measure"] = o["measure"]
+        if o.get("marginal"):
+            d["marginal"] = o["marginal"]
+        if t == "opposing_element":
+            d["element_id"] = o.get("eid", 0)
+        if t == "opposing_insertion":
+            d["insertion_id"] = o.get("iid", 0)
+        if o.get("dir") and (o["dir"] != "descending" or o.get("explicit_dir")):
+            d["direction"] = o["dir"]
     fixed = {}
     if o.get("top"):
         fixed["top"] = list(o["top"])
@@ -251,3 +270,115 @@ def order_configs(rows_dim, cols_dim, n, seed, with_prune=False, sort=False):
         return dimcfg(vins=vins, xins=xins, hide=hide, prune=prune, order=order)
 
     return [config(dc_for(rows_dim), dc_for(cols_dim)) for _ in range(n)]
+
+
+MEASURES_2D = ["col_percent", "row_percent", "table_percent", "count_weighted",
+               "count_unweighted", "col_base_unweighted", "col_base_weighted",
+               "row_base_unweighted", "row_base_weighted", "table_base_unweighted",
+               "table_base_weighted", "col_std_dev", "row_std_dev", "table_std_dev",
+               "col_std_err", "col_percent_moe", "row_std_err", "row_percent_moe",
+               "table_std_err", "table_percent_moe", "population", "col_index"]
+MEASURES_1D = ["percent", "count_weighted", "count_unweighted", "base_unweighted",
+               "base_weighted", "percent_stddev", "percent_stderr", "percent_moe"]
+MARGINALS = ["unweighted_base", "weighted_base", "table_proportion", "scale_mean",
+             "scale_median", "scale_mean_stddev", "scale_mean_stderr"]
+
+
+def sort_configs(rows_dim, cols_dim, n, seed, has_y=False):
+    """n random sort-by-value configurations (C08)"""
+    import random
+    rng = random.Random(seed)
+
+    def can_ins(dim):
+        return dim is not None and dim["kind"] in ("cat", "cacat")
+
+    def some_ins(dim, k0=0):
+        if not can_ins(dim) or rng.random() < 0.25:
+            return []
+        m = rng.choice([1, 2, 2, 3])
+        return [random_insertion(rng, dim, k0 + k + 1, allow_diff=True, with_id=True)
+                for k in range(m)]
+
+    def fixed(dim):
+        ids = _ids_plus(dim)
+        return [rng.choice(ids) for _ in range(rng.choice([0, 0, 1, 1, 2]))]
+
+    out = []
+    for _ in range(n):
+        sort_rows = cols_dim is None or rng.random() < 0.6
+        rins = some_ins(rows_dim)
+        cins = some_ins(cols_dim) if cols_dim is not None else []
+        meas2 = MEASURES_2D + (["mean", "sum"] if has_y else [])
+        meas1 = MEASURES_1D + (["mean", "sum"] if has_y else [])
+
+        def sort_order(dim, opp, opp_ins, is_rows):
+            if opp is None:
+                t = rng.choice(["univariate_measure"] * 4 + ["label"])
+            else:
+                t = rng.choice(["opposing_element"] * 4 + ["opposing_insertion"] * 2 + ["label"]
+                               + (["marginal"] * 2 if is_rows else []))
+            o = {"type": t, "dir": rng.choice(["descending", "descending", "ascending"]),
+                 "top": fixed(dim), "bottom": fixed(dim)}
+            if rng.random() < 0.3:
+                o["explicit_dir"] = True
+            if t == "univariate_measure":
+                o["measure"] = rng.choice(meas1 + (["bogus_measure"] if rng.random() < 0.1 else []))
+            elif t in ("opposing_element", "opposing_insertion"):
+                o["measure"] = rng.choice(meas2)
+                if t == "opposing_element":
+                    o["eid"] = rng.choice(_ids_plus(opp))
+                else:
+                    cands = [i["id"] for i in opp_ins if i["id"]] + [77]
+                    o["iid"] = rng.choice(cands)
+            elif t == "marginal":
+                o["marginal"] = rng.choice(MARGINALS)
+            return o
+
+        def hide_of(dim):
+            valid = [i for p, i in enumerate(dim["ids"], 1) if p not in dim["miss"]]
+            return [i for i in valid if rng.random() < 0.12]
+
+        if sort_rows:
+            r = dimcfg(xins=rins if rng.random() < 0.5 else None, vins=rins,
+                       hide=hide_of(rows_dim), prune=rng.random() < 0.2,
+                       order=sort_order(rows_dim, cols_dim, cins, True))
+            c = (dimcfg(vins=cins, hide=hide_of(cols_dim), prune=rng.random() < 0.2)
+                 if cols_dim is not None else dimcfg())
+        else:
+            r = dimcfg(vins=rins, hide=hide_of(rows_dim), prune=rng.random() < 0.2)
+            c = dimcfg(xins=cins if rng.random() < 0.5 else None, vins=cins,
+                       hide=hide_of(cols_dim), prune=rng.random() < 0.2,
+                       order=sort_order(cols_dim, rows_dim, rins, False))
+        out.append(config(r, c))
+    return out
+
+
+def assign_label_ranks(scn):
+    """fill in the label ranks the spec sorts labels by (TLC cannot order strings): dense
+    rank of every element label and insertion name of a dimension under str ordering"""
+    import envelope
+    from replay_basic import _labels_to_pos  # noqa: F401  (naming functions live there)
+    dims = scn["dims"]
+    if not dims:
+        return scn
+    ri, ci = envelope.slice_dim_indexes(dims)
+    for di, side in ((ri, "rows"), (ci, "cols")):
+        if di is None:
+            continue
+        d = dims[di]
+        labels = {}
+        for p in range(1, d["n"] + 1):
+            if d["kind"] in ("mr", "caitems", "numarr"):
+                labels[p] = envelope._item_name(d, p)
+            else:
+                labels[p] = envelope._cat_name(d, p)
+        names = set(labels.values())
+        for cfg in scn.get("configs") or []:
+            for i in cfg[side]["vins"] + cfg[side]["xins"]:
+                names.add(i["name"])
+        rank = {s: k + 1 for k, s in enumerate(sorted(names))}
+        d["lrank"] = [rank[labels[p]] for p in range(1, d["n"] + 1)]
+        for cfg in scn.get("configs") or []:
+            for i in cfg[side]["vins"] + cfg[side]["xins"]:
+                i["lrank"] = rank[i["name"]]
+    return scn
